@@ -53,8 +53,9 @@ def main(ctx):
         fails = verdicts[rec["id"]]
         ic.report(ctx, "C03", rec["id"], fails, {"case": c}, notes)
         ev.traces += 1
-        for g in rec["glyphs"]:
-            ev.evaluations += sum(len(cont) for d in g["draws"] for cont in [d["cmds"]]) if g["kind"] != "skip" else 0
+        ev.evaluations += 1
+        ev.extra["glyph_location_evaluations"] = ev.extra.get("glyph_location_evaluations", 0) + \
+            sum(len(g["at"]) for g in rec["glyphs"] if g["kind"] != "skip")
         ties = sum(max(0, g.get("ties", 0)) for g in c["glyphs"])
         sparse = any(len(g["srcs"]) != len(c["masters"]) or any(s["m"] == 0 for s in g["srcs"]) for g in c["glyphs"])
         if ties > 0 or sparse:
